@@ -4,7 +4,7 @@ from props.upstream_common import *
 ID = "C05"
 COQ_TARGETS = ["Run/Run_Upstream.vo"]
 META = {
-    "text": "Theorems (Properties/C05.v) over the Gallina model of LoadBalancedManager.AddConn/RemoveConn composed with cluster.State.AddLocalEndpoint/"
+    "text": "C05_peers_routing_table_tells_the_truth (Compose/EndToEnd.v): once a peer's gossip view has caught up, its routing table lists this node with a positive count for ep exactly when this node's manager holds an upstream for ep (C05 + C02/C03 + C14 + C04 composed). Theorems (Properties/C05.v) over the Gallina model of LoadBalancedManager.AddConn/RemoveConn composed with cluster.State.AddLocalEndpoint/"
             "RemoveLocalEndpoint/LocalEndpointListeners, the syncer's onLocalEndpointUpdate and the gossip state's UpsertLocal/DeleteLocal (Piko.Gossip.Local): "
             "after every op sequence (connects, disconnects of registered, already removed, never registered and twice registered upstreams, selections, remote-node "
             "updates) and for every endpoint e: cluster count = length of the balancer of e = number of connected upstreams by the history's own bookkeeping, the live "
